@@ -28,6 +28,9 @@ const (
 	sIssuer       = "issuer"              // signed by the issuing CA itself
 	sDelegated    = "delegated"           // responder cert issued by the CA with the OCSPSigning EKU, embedded
 	sDelegatedNoE = "delegated-no-eku"    // responder cert issued by the CA without the EKU, embedded
+	sDelegatedAny = "delegated-any-eku"   // responder cert issued by the CA whose EKU is anyExtendedKeyUsage only: no OCSP delegation (RFC 6960 4.2.2.2)
+	sDelegatedOth = "delegated-other-eku" // responder cert issued by the CA with clientAuth+serverAuth only
+	sDelegatedMix = "delegated-multi-eku" // responder cert issued by the CA with serverAuth AND OCSPSigning: a legitimate delegate
 	sClientCert   = "client-cert"         // signed with the client's own certificate/key, embedded
 	sClientBare   = "client-cert-bare"    // signed with the client's own key, nothing embedded (the client certificate is part of the verified chain)
 	sStrangerEmb  = "stranger-embedded"   // self-signed stranger, certificate embedded
@@ -53,6 +56,7 @@ type Responder struct {
 	Hits       int
 	delegated  *CA
 	delegNoEKU *CA
+	delegEKU   map[string]*CA
 	lookalike  *CA
 	ClientCert *x509.Certificate
 	ClientKey  crypto.Signer
@@ -135,6 +139,22 @@ func (r *Responder) Build(serial *big.Int, now time.Time) ([]byte, *OCSPAnswer) 
 		d := r.deleg(false)
 		respCert, key, tmpl.Certificate = d.Cert, d.Key, d.Cert
 		authentic = false
+	case sDelegatedAny, sDelegatedOth, sDelegatedMix:
+		if r.delegEKU == nil {
+			r.delegEKU = map[string]*CA{}
+		}
+		d := r.delegEKU[r.Signer]
+		if d == nil {
+			eku := map[string][]x509.ExtKeyUsage{
+				sDelegatedAny: {x509.ExtKeyUsageAny},
+				sDelegatedOth: {x509.ExtKeyUsageClientAuth, x509.ExtKeyUsageServerAuth},
+				sDelegatedMix: {x509.ExtKeyUsageServerAuth, x509.ExtKeyUsageOCSPSigning},
+			}[r.Signer]
+			d = NewCA(r.Issuer, CAOpts{CN: "Responder " + r.Signer, NotCA: true, KeyUsage: x509.KeyUsageDigitalSignature, EKU: eku})
+			r.delegEKU[r.Signer] = d
+		}
+		respCert, key, tmpl.Certificate = d.Cert, d.Key, d.Cert
+		authentic = r.Signer == sDelegatedMix
 	case sClientCert:
 		respCert, key, tmpl.Certificate = r.ClientCert, r.ClientKey, r.ClientCert
 		authentic = false
